@@ -77,7 +77,9 @@ func runC19(name, tier string) *hist.Result {
 	}
 	_, wantNames, _ := splitInstantiations(checked)
 	programs := 0
-	for _, initial := range []string{"absent", "checked-in"} {
+	// the generator is run several times per initial state: an output that varies between runs (e.g. map iteration order
+	// in the generator) cannot be "what the generator produces", and a single lucky run must not hide it
+	for _, initial := range []string{"absent", "checked-in", "absent", "checked-in", "absent", "absent"} {
 		dir, err := os.MkdirTemp(filepath.Join(verifDir, ".work"), "c19-")
 		if err != nil {
 			res.HarnessErr = err.Error()
@@ -140,13 +142,13 @@ func runC19(name, tier string) *hist.Result {
 		}
 	}
 	st.Extra = map[string]float64{"programs": float64(len(wantNames)), "comparisons": float64(programs)}
-	st.Samples = append(st.Samples, fmt.Sprintf("instantiations %v, each compared byte-for-byte against gofmt(go run cmd/go-art/main.go) from initial states {absent, checked-in}", wantNames))
+	st.Samples = append(st.Samples, fmt.Sprintf("instantiations %v, each compared byte-for-byte against gofmt(go run cmd/go-art/main.go) from initial states {absent, checked-in}, six generator runs in all", wantNames))
 	return res
 }
 
 func init() {
 	props["C19"] = &propInfo{Level: "translation_validation",
-		Rule:   "the quantifier domain is the five template instantiations; each is compared byte-for-byte with the formatted output of the repository's own generator run on the working tree's template, for both initial states of the output file (the generator opens it without truncation)",
+		Rule:   "the quantifier domain is the five template instantiations; each is compared byte-for-byte with the formatted output of the repository's own generator run on the working tree's template, for both initial states of the output file (the generator opens it without truncation), six generator runs in all (an output that varies between runs is a violation)",
 		Assume: []string{"the Go toolchain's text/template and gofmt are trusted"},
 		Jobs: func(tier string, seed int) []JobDef {
 			return []JobDef{{Name: "generator", Args: []string{"job", "-prop", "C19", "-tier", tier, "-universe", "generator"}}}
